@@ -610,6 +610,7 @@ def small(case):
 
 
 def run(ctx):
+    ctx.liveness("ModelFit", unfair_control=not ctx.quick)      # termination under weak fairness (ModelFit_live.cfg)
     rng = np.random.default_rng(ctx.seed)
     ctx.phase("model_checking+generation")
     with ThreadPoolExecutor(max_workers=1) as bg:
@@ -707,6 +708,10 @@ def run(ctx):
                "feature in either orientation; train_fdr in {1, 1/2, 1/4} (dyadic) or 0.3701 (off-lattice)")
     ctx.assume("the rng handed to Model is a numpy Generator; for TLC-generated runs its permutation() returns the "
                "permutation chosen by TLC")
+    # the multi-step part of the statement: one Model object through fit / predict / save / load_model in any order
+    # (ModelLife.tla behaviours replayed into the real object, judged by ModelLifeTrace.tla)
+    from drivers import modellife
+    modellife.family(ctx)
     return ctx.finish(
         rule="cases = every (dataset n<=3, train_fdr, rng permutation, max_iter<=3) run explored by TLC from ModelFit.tla "
              "(exhaustive) + a hash / seeded sample of the n=4 runs (thorough: of all n=4 runs and of the n=5 runs with a "
@@ -719,6 +724,9 @@ def run(ctx):
 
 
 def replay(ctx, case):
+    if isinstance(case.get("case"), dict) and case["case"].get("kind") == "lifecycle":
+        from drivers import modellife
+        return modellife.replay(ctx, case)
     c = case["case"]["case"]
     traces = run_case(c)
     for i, t in enumerate(traces):
